@@ -308,13 +308,14 @@ def run_case(qualname, recipes, caller=None):
                 rep["violations"].append(name)
                 rep.setdefault("expected", {})[name] = repr(exp)[:300]
         except Exception as e:
-            rep["violations"].append(f"{name} (contract evaluation raised {type(e).__name__}: {e})")
+            rep.setdefault("harness_errors", []).append(f"{name}: contract evaluation raised {type(e).__name__}: {e}")
     for name, ex in c.ensures:
         try:
             if not ev(ex, ns):
                 rep["violations"].append(name)
         except Exception as e:
-            rep["violations"].append(f"{name} (contract evaluation raised {type(e).__name__}: {e})")
+            # a clause the harness cannot evaluate is a harness limitation, never a violation
+            rep.setdefault("harness_errors", []).append(f"{name}: contract evaluation raised {type(e).__name__}: {e}")
     return rep
 
 
